@@ -26,6 +26,7 @@ class Client:
     """override what is needed.  track: 'all' (variables + tested pure conditions), 'vars' (variables only),
     'none' (path-insensitive: every CFG edge is feasible, no valuation is kept)"""
     track = 'all'
+    fork_bools = False   # split the state at every assignment of an unknown value to a tracked bool local
 
     def init(self, fn):
         return ()
@@ -191,6 +192,8 @@ class Run:
                     return (a == b) if op == '==' else (a != b)
             if op == ',':
                 return self.eval(n['ch'][1], vals)
+            if op == '=':
+                return self.eval(n['ch'][1], vals)
             p = vals.get(('p', self.fn.fp(nid)))
             return p
         if k == 'ConditionalOperator':
@@ -302,6 +305,13 @@ class Run:
             return True
         if k == 'BinaryOperator' and n.get('op') == ',':
             return self.assume(n['ch'][1], pol, vals, learned)
+        if k == 'BinaryOperator' and n.get('op') == '=':
+            # (v = expr) used as a condition: the variable and the expression share the value
+            ok = self.assume(n['ch'][1], pol, vals, learned)
+            key = self.varkey(self.strip(n['ch'][0]))
+            if ok and key is not None:
+                vals[('v', key)] = pol
+            return ok
         if k == 'ConditionalOperator':
             c = self.eval(n['cond'], vals)
             if c is True:
@@ -368,6 +378,20 @@ class Run:
         self._mentions(rhs, ment)
         if key not in ment:
             vals[('d', key)] = rhs
+
+    def _assigned_bools(self, n):
+        out = []
+        if n['k'] == 'DeclStmt':
+            for d in n.get('decls', []):
+                if is_boolish(d.get('ty')) and d.get('init'):
+                    out.append('%s#%d' % (d['name'], d['did']))
+        elif n['k'] == 'BinaryOperator' and n.get('op') == '=':
+            l = self.strip(n['ch'][0])
+            if l is not None and is_boolish(l.get('ty')):
+                k = self.varkey(l)
+                if k:
+                    out.append(k)
+        return out
 
     def step(self, n, vals):
         """engine-side effect of executing CFG element n on the valuation"""
@@ -477,11 +501,35 @@ class Run:
                         if el in self._stmt_level or node['k'] in ('DeclStmt',):
                             for kk in [kk for kk in v if kk[0] == 'm']:
                                 del v[kk]
-                    if isinstance(r, list):
-                        for a2 in r:
-                            nxt.append((a2, dict(v)))
-                    elif r is not None or True:
-                        nxt.append((r, v))
+                    outs = [(a2, dict(v)) for a2 in r] if isinstance(r, list) else [(r, v)]
+                    if self.client.fork_bools and not isinstance(el, dict) and self.client.track != 'none':
+                        fk = self._assigned_bools(node)
+                        if fk:
+                            forked = []
+                            for (a2, v2) in outs:
+                                cur = [(a2, v2)]
+                                for key in fk:
+                                    nx2 = []
+                                    for (a3, v3) in cur:
+                                        if ('v', key) in v3 or ('d', key) not in v3:
+                                            nx2.append((a3, v3))
+                                            continue
+                                        for val in (True, False):
+                                            v4 = dict(v3)
+                                            learned = []
+                                            if not self.assume(v4[('d', key)], val, v4, learned):
+                                                continue
+                                            v4[('v', key)] = val
+                                            a4 = a3
+                                            for (ln, lv) in learned:
+                                                a4 = self.client.learn(fn, ln, lv, a4, Ctx(self, v4, item))
+                                            for kk in [kk for kk in v4 if kk[0] == 'm']:
+                                                del v4[kk]
+                                            nx2.append((a4, v4))
+                                    cur = nx2
+                                forked.extend(cur)
+                            outs = forked
+                    nxt.extend(outs)
                     if node['k'] == 'ReturnStmt':
                         pass
                 autos = nxt
